@@ -9,8 +9,9 @@ THEOREMS = ["C10_if_true", "C10_if_false_else", "C10_if_false_nothing", "C10_con
             "C10_for_empty", "C10_sequence", "C10_for_unrolled_assembly", "C10_for_unrolled_labels", "C10_kind_invisible",
             "C10_if_assembly", "C10_if_true_assembly", "C10_if_undefined_assembly", "C10_if_false_assembly", "C10_nesting_stable",
             # the printer / front-end round trip that lifts the AST-level statements to source text
-            "Front_roundtrip", "Front_assemble_printed", "Front_assemble_ast_printed"]
-PROOF_HEADER = "From A816 Require Import Properties.C10 Properties.FrontEnd."
+            "Front_roundtrip", "Front_assemble_printed", "Front_assemble_ast_printed",
+            "TextLift_for_unrolled", "TextLift_if_selected"]
+PROOF_HEADER = "From A816 Require Import Properties.C10 Properties.FrontEnd Properties.TextLift."
 RULE = ("generated programs with .if (zero, non-zero, negative, large, undefined-name conditions, with/without else) and "
         ".for (empty, single, many, negative start, bounds from constants and macro parameters) incl. nesting and use inside "
         "macros; each compared with the model and with its hand-expanded twin (selected branch inline, { v = k body } per "
@@ -84,7 +85,7 @@ def cases(ctx):
                 twin = head + (t_def if taken else (e_def if has_else else "")) + tail
                 out.append({"kind": f"if-defines:{cond}:{int(has_else)}:{int(default)}", "rom": "low", "src": src,
                             "twin_src": twin, "spec": {"t": "twin", "labels": True}})
-    for lo, hi in ((0, 0), (0, 1), (0, 3), (2, 7), (5, 2), (-2, 2), (0, 40), (-3, -1)):
+    for lo, hi in ((0, 0), (0, 1), (0, 3), (2, 7), (5, 2), (-2, 2), (0, 40), (-3, -1), (-12, -8), (-32, -29), (-101, -99), (-10, 1), (-256, -254), (9, 12), (99, 101)):
         src = f"*={org:#08x}\n.for i := {lo}, {hi} {{\nlab:\n.db i\n.dw lab\n}}\nend:\n.dl end\n"
         twin = f"*={org:#08x}\n" + "".join(f"{{\ni = {k}\nlab:\n.db i\n.dw lab\n}}\n" for k in range(lo, hi)) + "end:\n.dl end\n"
         out.append({"kind": f"for:{lo}:{hi}", "rom": "low", "src": src, "twin_src": twin, "spec": {"t": "twin", "labels": False}})
@@ -119,7 +120,7 @@ def cases(ctx):
     out.append({"kind": "for:nested-const", "rom": "low", "spec": {"t": "twin", "labels": False},
                 "src": f"*={org:#08x}\nc := 2\n.for a := 0, 3 {{\n.for b := 0, c {{\n.if c - 1 {{\n.db a, b\n}}\n}}\n}}\n",
                 "twin_src": f"*={org:#08x}\n.db 0, 0, 0, 1, 1, 0, 1, 1, 2, 0, 2, 1\n"})
-    return out
+    return core.mark_must_assemble(out, {'for', 'if-late-name', 'if-empty', 'if'})
 
 
 def instantiate(gen_q):
